@@ -221,7 +221,7 @@ class C16(Prop):
             viol += oracles.tables_wellformed(out.results, scn, expect_times=full)
             if not viol:
                 viol += oracles.compare_tables(out.results, ref.results, full, label='rescued', keys=oracles.SLACK_KEYS,
-                                                slack=oracles.SOLVER_SLACK, col_atol=oracles.flow_col_atol(scn, ref.results, full))
+                                                slack=oracles.solver_slack(scn, ref.tables if hasattr(ref, "tables") and ref.tables is not None else ref.results, full), col_atol=oracles.flow_col_atol(scn, ref.results, full))
             return viol
         # an unrescued failure at solve k
         bump(c, 'run.failed')
